@@ -337,10 +337,16 @@ def r17f(rep, F):
             if '%s#%d' % (dd['name'], dd['did']) == v:
                 vinit = dd.get('init')
     sel = f.strip(vinit) if vinit else None
-    if sel is None or sel['k'] != 'ConditionalOperator':
-        raise AnalysisBroken('R17f: start of the vertex loop is not selected by the snapped/unsnapped test')
-    E2 = lin.lin(f, sel['else'])
-    selfp = nofp(f.fp(sel['cond']))
+    if sel is None:
+        raise AnalysisBroken('R17f: start of the vertex loop has no initialiser')
+    if sel['k'] == 'ConditionalOperator':
+        E2 = lin.lin(f, sel['else'])
+        selfp = nofp(f.fp(sel['cond']))
+    else:
+        # the start is not selected by the snapped/unsnapped test: it must then equal the end of the partial piece of the
+        # unsnapped case as it stands
+        E2 = lin.lin(f, sel['id'])
+        selfp = None
     # the piece before: ConditionalOperator with the same selector whose else is motionCost(before, states[E1])
     E1 = None
     E4 = None
@@ -349,7 +355,7 @@ def r17f(rep, F):
             e = f.strip(x['else'])
             if e is not None and e.get('callee') == OO + 'motionCost':
                 b0, b1 = [f.strip(y) for y in args(f, e)]
-                if nofp(f.fp(x['cond'])) == selfp and b1.get('oop') == '[]':
+                if (selfp is None or nofp(f.fp(x['cond'])) == selfp) and b1.get('oop') == '[]' and f.line(x) < f.line(w):
                     E1 = lin.lin(f, b1['ch'][1])
                 elif b0.get('oop') == '[]' and f.line(x) > f.line(w):
                     E4 = lin.lin(f, b0['ch'][1])
